@@ -539,6 +539,45 @@ def _nondefault(sig: inspect.Signature, args: tuple, kwargs: dict) -> list[tuple
     return forms
 
 
+def _omit_perturbed(sig: inspect.Signature, args: tuple, kwargs: dict, pname: str) -> list[tuple[str, str, tuple, dict]]:
+    ba = _bound(sig, args, kwargs)
+    if ba is None:
+        return []
+    passed = dict(ba.arguments)
+    passed.pop(pname, None)
+    names = list(sig.parameters)
+    out = []
+
+    def rebuild(vals: dict[str, Any]):
+        # everything by keyword except the leading positional-only parameters and the first (operand) parameter
+        pos, kw = [], {}
+        for i, n in enumerate(names):
+            if n not in vals:
+                continue
+            prm = sig.parameters[n]
+            if prm.kind is inspect.Parameter.POSITIONAL_ONLY or i == 0:
+                pos.append(vals[n])
+            elif prm.kind in (inspect.Parameter.VAR_POSITIONAL, inspect.Parameter.VAR_KEYWORD):
+                return None
+            else:
+                kw[n] = vals[n]
+        return tuple(pos), kw
+
+    base = rebuild(passed)
+    if base is None:
+        return []
+    out.append(("nondefault", f"{pname}:omitted", base[0], base[1]))
+    for n, v in list(passed.items()):
+        if isinstance(v, (tuple, list)) and v and all(isinstance(e, (int, np.integer)) and not isinstance(e, bool) for e in v):
+            for tag, g in (("half", lambda e: max(1, int(e) // 2)), ("quarter", lambda e: max(1, int(e) // 4)), ("double", lambda e: int(e) * 2)):
+                alt = dict(passed)
+                alt[n] = type(v)(g(e) for e in v)
+                rb = rebuild(alt)
+                if rb is not None:
+                    out.append(("nondefault", f"{pname}:omitted:{n}:{tag}", rb[0], rb[1]))
+    return out
+
+
 # --------------------------------------------------------------------------------------------
 # executing one form
 # --------------------------------------------------------------------------------------------
@@ -658,7 +697,7 @@ def _eager(r: dict[str, Any], args: tuple, kwargs: dict):
 
 
 def forms_job(components: list[str], forms_by_slot: dict[str, list[dict[str, Any]]] | None = None, must_by_slot: dict[str, list[dict[str, Any]]] | None = None, max_base: int = 2,
-              max_forms: int = 24, budget_s: float = 240.0, nondefault: bool = True, seed: int = 0) -> list[dict[str, Any]]:
+              max_forms: int = 24, budget_s: float = 240.0, nondefault: bool = True, seed: int = 0, default_diffs: dict[str, list[str]] | None = None) -> list[dict[str, Any]]:
     """Record base calls of the slots owned by `components` from their own testcases, then execute the
     call forms TLC enumerated for each slot (plus one-parameter non-default variations)."""
     import random
@@ -771,6 +810,11 @@ def forms_job(components: list[str], forms_by_slot: dict[str, list[dict[str, Any
                 variants.append(("form", f"np={f['np']},kw={'+'.join(sorted(f['kw']))}", fa, fk))
             if nondefault:
                 variants += _nondefault(sig, a, k)
+            # parameters whose DEFAULT differs between the original and the substitute (a fact of the signatures):
+            # the call that omits them, on the recorded operands and on operands whose integer tuples (target
+            # shapes, sizes) are halved / quartered / doubled -- where a different default changes the result
+            for pname in (default_diffs or {}).get(r["id"], []):
+                variants = _omit_perturbed(sig, a, k, pname) + variants
             done: set[str] = {_form_key(a, k)}
             for kind, name, fa, fk in variants:
                 fkey = _form_key(fa, fk)
